@@ -858,4 +858,318 @@ def dropWhile (s : Strm β) (p : β → Bool) : R (Strm β) :=
 
 end Strm
 
+/-! ## element errors: streams driven by a Noulith function that may stop or raise
+
+`Iterate`, `MappedStream`, `FilteredStream`, `ZippedStream` (streams.rs 501-814) call a user
+function while iterating.  Their items are `NRes<Obj>`: an item is a value or an error.  The model
+of this layer keeps the same `Ops` record with elements `Item β`; the state machines below transcribe
+what the Rust does when the function returns `Err`:
+* `Iterate::next` yields the CURRENT element and only *records* a `break` / an error of the
+  look-ahead call `f(cur)`; the failure surfaces when the next element is demanded (`break` = the
+  stream ends, anything else = an error item, again and again);
+* the adaptors yield the error item once and are dead afterwards (`self.0 = Err(e)`, then
+  `self.0.as_mut().ok()?` is `None`).
+Consumers propagate an error item with `?` at the moment they reach it, so an error in producing
+element `k` does not affect an observation that only needs elements before `k`.
+`bound` for this layer = an upper bound on the number of items up to and including the first error. -/
+
+inductive Item (β : Type) where
+  | ok (v : β)
+  | err
+  deriving DecidableEq, Repr, Inhabited
+
+/-- result of calling a Noulith function inside a stream: a value, `break` (graceful stop), or a
+raised error -/
+inductive FnRes (β : Type) where
+  | ok (v : β)
+  | stop
+  | fail
+  deriving DecidableEq, Repr
+
+/-- `it.collect::<NRes<Vec<Obj>>>()`: stops at the first error item -/
+def collectE {σ β : Type} (next : σ → Option (Item β × σ)) : Nat → σ → Option (R (List (Item β)))
+  | fuel, s =>
+    match next s with
+    | none => some (.ok [])
+    | some (.err, _) => some .throw
+    | some (.ok v, s') =>
+      match fuel with
+      | 0 => none
+      | fuel + 1 => (collectE next fuel s').map (R.map (Item.ok v :: ·))
+
+def defaultForceE {σ β : Type} (next : σ → Option (Item β × σ)) (bound : σ → Option Nat) (s : σ) :
+    R (List (Item β)) :=
+  match bound s with
+  | none => .diverge
+  | some b =>
+    match collectE next b s with
+    | some r => r
+    | none => .diverge
+
+/-- number of items up to the end, or up to and including the first error, searched with fuel
+(model-only: the bound of an adaptor over an infinite inner stream whose function raises) -/
+def itemsUntil {σ β : Type} (next : σ → Option (Item β × σ)) : Nat → σ → Option Nat
+  | 0, _ => none
+  | fuel + 1, s =>
+    match next s with
+    | none => some 0
+    | some (.err, _) => some 1
+    | some (.ok _, s') => (itemsUntil next fuel s').map (· + 1)
+
+def boundOrSearch {σ β : Type} (b : Option Nat) (next : σ → Option (Item β × σ)) (s : σ) : Option Nat :=
+  match b with
+  | some b => some b
+  | none => itemsUntil next 10000 s
+
+/-- an item stream that overrides nothing -/
+def Ops.plainE {σ β : Type} (next : σ → Option (Item β × σ)) (peek : σ → Option (Item β))
+    (bound : σ → Option Nat) : Ops σ (Item β) :=
+  Ops.build next peek bound (defaultLen next bound) (defaultForceE next bound)
+
+namespace IterateE
+variable {α : Type}
+
+inductive St (α : Type) where
+  | run (cur : α)
+  | stopped
+  | failed
+  deriving Repr
+
+/-- `Iterate::next` (streams.rs 515-535) -/
+def next (f : α → FnRes α) : St α → Option (Item α × St α)
+  | .run x =>
+    match f x with
+    | .ok y => some (.ok x, .run y)
+    | .stop => some (.ok x, .stopped)
+    | .fail => some (.ok x, .failed)
+  | .stopped => none
+  | .failed => some (.err, .failed)
+
+/-- `Iterate::peek` -/
+def peek : St α → Option (Item α)
+  | .run x => some (.ok x)
+  | .stopped => none
+  | .failed => some .err
+
+/-- number of items up to the end / the first error, searched with fuel (model-only) -/
+def runLen (f : α → FnRes α) : Nat → α → Option Nat
+  | 0, _ => none
+  | fuel + 1, x =>
+    match f x with
+    | .ok y => (runLen f fuel y).map (· + 1)
+    | .stop => some 1
+    | .fail => some 2
+
+def bound (f : α → FnRes α) : St α → Option Nat
+  | .run x => runLen f 10000 x
+  | .stopped => some 0
+  | .failed => some 1
+
+/-- `len` is overridden (`None`), everything else is the trait default -/
+def ops (f : α → FnRes α) : Ops (St α) (Item α) :=
+  Ops.build (next f) peek (bound f) (fun _ => .ok none) (defaultForceE (next f) (bound f))
+end IterateE
+
+section AdaptorsE
+variable {σ τ β γ : Type}
+
+/-- `MappedStream::next` with a function that may fail; `none` = the dead state `Err(e)` -/
+def mapNextE (inner : σ → Option (Item β × σ)) (f : β → FnRes γ) :
+    Option σ → Option (Item γ × Option σ)
+  | none => none
+  | some s =>
+    match inner s with
+    | none => none
+    | some (.err, _) => some (.err, none)
+    | some (.ok v, s') =>
+      match f v with
+      | .ok w => some (.ok w, some s')
+      | _ => some (.err, none)
+
+/-- `MappedStream::peek` -/
+def mapPeekE (peek : σ → Option (Item β)) (f : β → FnRes γ) : Option σ → Option (Item γ)
+  | none => none
+  | some s =>
+    match peek s with
+    | none => none
+    | some .err => some .err
+    | some (.ok v) =>
+      match f v with
+      | .ok w => some (.ok w)
+      | _ => some .err
+
+def liftBound (b : σ → Option Nat) : Option σ → Option Nat
+  | none => some 0
+  | some s => b s
+
+def mapOpsE (o : Ops σ (Item β)) (f : β → FnRes γ) : Ops (Option σ) (Item γ) :=
+  Ops.plainE (mapNextE o.next f) (mapPeekE o.peek f)
+    (fun s => boundOrSearch (liftBound o.bound s) (mapNextE o.next f) s)
+
+/-- the loop of `FilteredStream::next` with a predicate that may fail -/
+def filterLoopE (inner : σ → Option (Item β × σ)) (p : β → FnRes Bool) :
+    Nat → σ → Option (Option (Item β × Option σ))
+  | fuel, s =>
+    match inner s with
+    | none => some none
+    | some (.err, _) => some (some (.err, none))
+    | some (.ok v, s') =>
+      match p v with
+      | .ok true => some (some (.ok v, some s'))
+      | .ok false =>
+        match fuel with
+        | 0 => none
+        | fuel + 1 => filterLoopE inner p fuel s'
+      | _ => some (some (.err, none))
+
+def filterNextE (o : Ops σ (Item β)) (p : β → FnRes Bool) : Option σ → Option (Item β × Option σ)
+  | none => none
+  | some s => (filterLoopE o.next p (fuelOf (o.bound s)) s).getD none
+
+def filterOpsE (o : Ops σ (Item β)) (p : β → FnRes Bool) : Ops (Option σ) (Item β) :=
+  Ops.plainE (filterNextE o p) (fun s => (filterNextE o p s).map Prod.fst)
+    (fun s => boundOrSearch (liftBound o.bound s) (filterNextE o p) s)
+
+/-- one more stream in front of a `ZippedStream`; the first `None` / error from the left decides -/
+def zipNextE (a : σ → Option (Item β × σ)) (b : τ → Option (Item (List β) × τ)) :
+    Option (σ × τ) → Option (Item (List β) × Option (σ × τ))
+  | none => none
+  | some (s1, s2) =>
+    match a s1 with
+    | none => none
+    | some (.err, _) => some (.err, none)
+    | some (.ok x, s1') =>
+      match b s2 with
+      | none => none
+      | some (.err, _) => some (.err, none)
+      | some (.ok xs, s2') => some (.ok (x :: xs), some (s1', s2'))
+
+def zipPeekE (a : σ → Option (Item β)) (b : τ → Option (Item (List β))) :
+    Option (σ × τ) → Option (Item (List β))
+  | none => none
+  | some (s1, s2) =>
+    match a s1 with
+    | none => none
+    | some .err => some .err
+    | some (.ok x) =>
+      match b s2 with
+      | none => none
+      | some .err => some .err
+      | some (.ok xs) => some (.ok (x :: xs))
+
+def zipOpsE (a : Ops σ (Item β)) (b : Ops τ (Item (List β))) : Ops (Option (σ × τ)) (Item (List β)) :=
+  Ops.plainE (zipNextE a.next b.next) (zipPeekE a.peek b.peek)
+    (fun s => boundOrSearch
+      (match s with
+        | none => some 0
+        -- one more than the shorter side: an error item of `a` is passed on before `b` is asked
+        | some (s1, s2) => (zipBound (a.bound s1) (b.bound s2)).map (· + 1))
+      (zipNextE a.next b.next) s)
+
+def zipOneE (a : Ops σ (Item β)) : Ops (Option σ) (Item (List β)) := mapOpsE a fun x => .ok [x]
+end AdaptorsE
+
+/-! ### the consumers on an item stream: an error item is raised when it is reached -/
+namespace StrmE
+variable {β : Type}
+
+/-- `v.push(x?)`: the values of a window, an error if the window contains an error item -/
+def unItems : List (Item β) → R (List β)
+  | [] => .ok []
+  | .ok v :: rest => (unItems rest).map (v :: ·)
+  | .err :: _ => .throw
+
+def unItem : Item β → R β
+  | .ok v => .ok v
+  | .err => .throw
+
+def toList (s : Strm (Item β)) : R (List β) :=
+  (defaultForceE s.ops.next s.ops.bound s.st).bind unItems
+def index (s : Strm (Item β)) (i : Int) : R β := (s.index i).bind unItem
+def slice (s : Strm (Item β)) (lo hi : Option Int) : R (Sum (List β) (Strm (Item β))) :=
+  (s.slice lo hi).bind fun r =>
+    match r with
+    | .inl l => (unItems l).map .inl
+    | .inr t => .ok (.inr t)
+def reversed (s : Strm (Item β)) : R (Sum (List β) (Strm (Item β))) :=
+  s.reversed.bind fun r =>
+    match r with
+    | .inl l => (unItems l).map .inl
+    | .inr t => .ok (.inr t)
+def only (s : Strm (Item β)) : R β :=
+  s.len.bind fun n =>
+    match n with
+    | some 1 => index s 0
+    | _ => .throw
+
+/-- `obj_in`: `if e? == a` -/
+def memLoopE {σ : Type} [DecidableEq β] (next : σ → Option (Item β × σ)) (a : β) : Nat → σ → Option (R Bool)
+  | fuel, s =>
+    match next s with
+    | none => some (.ok false)
+    | some (.err, _) => some .throw
+    | some (.ok v, s') =>
+      if v = a then some (.ok true)
+      else match fuel with
+        | 0 => none
+        | fuel + 1 => memLoopE next a fuel s'
+
+def mem [DecidableEq β] (s : Strm (Item β)) (a : β) : R Bool :=
+  match memLoopE s.ops.next a (fuelOf (s.ops.bound s.st)) s.st with
+  | some r => r
+  | none => .diverge
+
+def unpack (s : Strm (Item β)) (k : Nat) : R (List β) :=
+  s.len.bind fun n =>
+    match n with
+    | none => .throw
+    | some n =>
+      if k = n then (toList s).bind fun l => if l.length = k then .ok l else .throw
+      else .throw
+
+/-- `take_while`, stream arm: `let x = x?;` -/
+def takeWhileLoopE {σ : Type} (next : σ → Option (Item β × σ)) (p : β → FnRes Bool) :
+    Nat → σ → Option (R (List β))
+  | fuel, s =>
+    match next s with
+    | none => some (.ok [])
+    | some (.err, _) => some .throw
+    | some (.ok v, s') =>
+      match p v with
+      | .ok true =>
+        match fuel with
+        | 0 => none
+        | fuel + 1 => (takeWhileLoopE next p fuel s').map (R.map (v :: ·))
+      | .ok false => some (.ok [])
+      | _ => some .throw
+
+def takeWhile (s : Strm (Item β)) (p : β → FnRes Bool) : R (List β) :=
+  match takeWhileLoopE s.ops.next p (fuelOf (s.ops.bound s.st)) s.st with
+  | some r => r
+  | none => .diverge
+
+/-- `drop_while`, stream arm: `while let Some(x) = t.peek() { let x = x?; … }` -/
+def dropWhileLoopE {σ : Type} (o : Ops σ (Item β)) (p : β → FnRes Bool) : Nat → σ → Option (R σ)
+  | fuel, s =>
+    match o.peek s with
+    | none => some (.ok s)
+    | some .err => some .throw
+    | some (.ok x) =>
+      match p x with
+      | .ok true =>
+        let s' := match o.next s with
+          | none => s
+          | some (_, s') => s'
+        match fuel with
+        | 0 => none
+        | fuel + 1 => dropWhileLoopE o p fuel s'
+      | .ok false => some (.ok s)
+      | _ => some .throw
+
+def dropWhile (s : Strm (Item β)) (p : β → FnRes Bool) : R (Strm (Item β)) :=
+  match dropWhileLoopE s.ops p (fuelOf (s.ops.bound s.st)) s.st with
+  | some r => r.map fun st => { s with st := st }
+  | none => .diverge
+end StrmE
+
 end Noulith.Stream
